@@ -167,10 +167,17 @@ func Now() time.Time {
 	}
 	i, _ := strconv.ParseInt(v, 10, 64)
 	lastNow = time.Unix(0, i).UTC()
+	if !haveFirstNow {
+		firstNow, haveFirstNow = lastNow, true
+	}
 	return lastNow
 }
 
-var lastNow time.Time
+var lastNow, firstNow time.Time
+var haveFirstNow bool
+
+// FirstNow returns the first reading of the controlled clock.
+func FirstNow() time.Time { return firstNow }
 
 // LastNow returns the most recent reading of the controlled clock.
 func LastNow() time.Time { return lastNow }
